@@ -584,7 +584,10 @@ impl<B: Fld> Air for GAir<B> {
         let w = self.pub_inputs.shape.width();
         for j in 0..a.cols {
             let m: E = main.current()[j % w].into();
-            r[j] = if a.rands > 0 { aux.next()[j] - aux.current()[j] * (m + rands[j % a.rands]) } else { aux.next()[j] - (aux.current()[j] + m) };
+            // the number of random elements comes from the proof's trace info: be defensive, an
+            // AIR cannot signal an error here
+            let rnd = if a.rands > 0 { rands.get(j % a.rands).copied().unwrap_or(E::ZERO) } else { E::ZERO };
+            r[j] = if a.rands > 0 { aux.next()[j] - aux.current()[j] * (m + rnd) } else { aux.next()[j] - (aux.current()[j] + m) };
         }
     }
     fn get_aux_assertions<E: FieldElement<BaseField = B>>(&self, _rands: &[E]) -> Vec<Assertion<E>> {
